@@ -19,6 +19,7 @@ PLAN = {
         "legs": [
             {"name": "native", "flavour": "native", "shards": 4, "shards_thorough": 16},
             {"name": "race", "flavour": "native", "shards": 4, "shards_thorough": 16},
+            {"name": "clone-race", "flavour": "native", "shards": 2, "shards_thorough": 8},
             {"name": "miri-race", "flavour": "miri", "shards": 12, "shards_thorough": 64, "miriflags": IGN, "timeout": 900},
             {"name": "miri-seq", "flavour": "miri", "shards": 2, "shards_thorough": 8, "miriflags": IGN, "timeout": 900},
         ],
@@ -328,6 +329,8 @@ PLAN = {
                         "descriptions are paced (4 ms apart) for buffers <= 4 because they share the bounded channel with metrics"],
         "legs": [
             {"name": "native", "flavour": "native", "shards": 4, "shards_thorough": 16, "timeout": 1800},
+            {"name": "stall", "flavour": "native", "shards": 2, "shards_thorough": 8, "timeout": 1800},
+            {"name": "wake", "flavour": "native", "shards": 2, "shards_thorough": 8, "timeout": 1800},
         ],
     },
 }
